@@ -380,6 +380,62 @@ fn main_check(ctx: &Ctx) -> Outcome {
         acc = acc.merge(a);
     }
 
+    // (f) call histories: the result may depend on nothing but the argument.  Every ordered pair (and every triple over a
+    //     smaller set) of inputs is parsed in order on a fresh thread (anything kept between calls - a scratch buffer, a
+    //     cache - starts empty), and every answer is compared with the model; the first inputs include lists that stop early
+    //     (unknown selector, truncated form), rejected lists and long lists.
+    {
+        let hist: Vec<&str> = vec![
+            "", "0", "1", "31", "1;31", "4;58;5;9", "38;5;9", "38;2;1;2;3", "48;5;100;3", "38;6;1;7", "01;48;9;4;5;3", "58;7;7;7;7;7;7", "38", "38;5", "38;2;1;2",
+            "48;2;1", "58;5", "x", "1;x", "31;;1", "256", "1;2;3;4;5;7;8;9", "0;0;0;0;0;0;0;0;0;0;0;0;0;0;0;0;0;0;0;0;0;0;0;0;0;0;0;0;0;0;0;0;0;0;0;0;7", "22;23;24", "39;49;59", "90;107",
+            "38;5;1;38;6;2;4", "4;24", "58;5;9;24",
+        ];
+        let small: Vec<&str> = vec!["", "31", "38;6;1;7", "48;3;4;9;1", "x", "58;5;9", "1;38;2;1;2", "7"];
+        let mut histories: Vec<Vec<&str>> = vec![];
+        for a in &hist {
+            for b in &hist {
+                histories.push(vec![a, b]);
+            }
+        }
+        for a in &small {
+            for b in &small {
+                for c in &small {
+                    histories.push(vec![a, b, c]);
+                }
+            }
+        }
+        let a = histories
+            .par_iter()
+            .map(|h| {
+                let h = h.clone();
+                let colref = &col;
+                std::thread::scope(|sc| {
+                    sc.spawn(move || {
+                        let mut acc = Acc::default();
+                        for (i, input) in h.iter().enumerate() {
+                            acc.evals += 1;
+                            if let Err((clause, msg)) = check_one(input) {
+                                colref.push(Finding {
+                                    system: "call histories on one thread".to_string(),
+                                    clause: clause.to_string(),
+                                    case: vec![format!("{:?} then {input:?}", &h[..i])],
+                                    message: format!("after the calls {:?} on the same thread: {msg}", &h[..i]),
+                                    replay: json!({"kind": "history", "inputs": h.iter().map(|x| hex(x.as_bytes())).collect::<Vec<_>>()}),
+                                });
+                                break;
+                            }
+                        }
+                        acc
+                    })
+                    .join()
+                    .unwrap_or_default()
+                })
+            })
+            .reduce(Acc::default, Acc::merge);
+        out.push_part(json!({"part":"f","system":"call histories (pairs over 29 inputs, triples over 8) on a fresh thread each","histories":histories.len(),"cases":a.evals}));
+        acc = acc.merge(a);
+    }
+
     let (findings, total, per_clause) = col.finish();
     out.findings.extend(findings);
     out.set("violating_cases_total", json!(total));
@@ -410,6 +466,17 @@ fn replay(v: &serde_json::Value) -> Result<(), String> {
             let b = unhex(v["input"].as_str().ok_or("missing input")?);
             let s = String::from_utf8(b).map_err(|e| e.to_string())?;
             check_one(&s).map(|_| ()).map_err(|(c, m)| format!("{c}: {m}"))
+        }
+        "history" => {
+            let inputs: Vec<String> = v["inputs"].as_array().ok_or("missing inputs")?.iter().map(|x| String::from_utf8(unhex(x.as_str().unwrap_or(""))).unwrap_or_default()).collect();
+            std::thread::spawn(move || {
+                for i in &inputs {
+                    check_one(i).map(|_| ()).map_err(|(c, m)| format!("{c}: {m}"))?;
+                }
+                Ok(())
+            })
+            .join()
+            .map_err(|_| "history thread panicked".to_string())?
         }
         k => Err(format!("unknown replay kind {k}")),
     }
